@@ -133,6 +133,22 @@ def renege_scan(ctx, P):
                 ctx.violation(ob, "R6.argmin", "%s.update_next_renege_time" % cls.name, unparse(sr["node"]) if sr else "possible_next_events['renege']", "scan-result-not-stored", "the renege candidate must be ([customer], its reneging_date)", loc(arm))
             if name == "tie" and sr is not None and not sr["ties_ok"]:
                 ctx.violation(ob, "R6.argmin", "%s.update_next_renege_time" % cls.name, "tie arm append", "scan-result-not-stored", "a tied customer must be appended to the renege candidates", loc(arm))
+        # ... and whether the scan runs at all depends on the node's configuration only (finite servers, reneging on): a path that returns without scanning
+        # because of a condition on the node's *state* (a counter, a queue length) leaves a due renege unscheduled whenever that condition is off
+        rcls, rfn = view.method("update_next_renege_time")
+        ws = Walker(P, view, keep=lambda e: e.kind in ("guard", "iter", "loopexit"), track=lambda t, f: True, inline=rules.new_helper)
+        for st_ in ws.paths_of(rcls, rfn):
+            if st_.status == "raise" or any(e.kind in ("iter", "loopexit") and isinstance(e.node, ast.For) for e in st_.events):
+                continue
+            for e in st_.events:
+                if e.kind != "guard":
+                    continue
+                state_atoms = [a_ for a_ in guards.atoms(e.d["formula"]) if not ws._is_config_atom(a_)]
+                if state_atoms:
+                    ctx.violation(ob, "R6.argmin", "%s.update_next_renege_time" % cls.name, guards.show(e.d["formula"]), "scan-skipped-on-a-state-condition",
+                                  "the renege scan is skipped under `%s`, a condition on the node's state rather than its configuration: a waiting customer whose "
+                                  "patience runs out is then never scheduled to leave" % guards.show(e.d["formula"]), e.where, witness(st_))
+                    break
         # reachability: the renege event type is produced only under not-INF and REN
         C = contexts(P, view)
         bad = [v for v in C.prod["renege"] if v["INF"] or not v["REN"]]
